@@ -54,6 +54,8 @@ class Prov:
             return ('addr', ('G', self.gkey(name)), ())
         if k == 'cgep':
             base = self.expr(v[2], depth)
+            if base[0] == 'str' and all(i == ('int', 0) for i in v[3]):
+                return base
             return self._gep(base, v[1], [self.expr(i, depth) for i in v[3]])
         if k == 'ccast':
             x = self.expr(v[2], depth)
@@ -422,3 +424,17 @@ def is_null_test(e):
     if core[0] == 'icmp' and core[1] in ('eq', 'ne') and strip_casts(core[3]) == ('null',):
         return strip_casts(core[2]), (pol if core[1] == 'ne' else not pol)
     return None, None
+
+
+def cmp_norm(c):
+    """icmp expression -> (pred, x, y) with a constant operand (if any) on the right; None if not an icmp"""
+    c = strip_casts(c)
+    if c[0] != 'icmp':
+        return None
+    x, y = strip_casts(c[2]), strip_casts(c[3])
+    pred = c[1]
+    if x[0] in ('const', 'null') and y[0] not in ('const', 'null'):
+        x, y = y, x
+        pred = {'sgt': 'slt', 'slt': 'sgt', 'sge': 'sle', 'sle': 'sge', 'ugt': 'ult', 'ult': 'ugt',
+                'uge': 'ule', 'ule': 'uge'}.get(pred, pred)
+    return pred, x, y
